@@ -310,6 +310,45 @@ func ruleC07_1(c *Ctx, r *Rep) {
 		}
 	}
 	r.Check("C08.5", "C08.5:broken-filter-skips@"+fnDeliver, fn.Pos(), okSkip, "", "a stored filter that does not parse makes the publish fail instead of skipping that subscription")
+	// the only reasons to skip a filtered subscription: the filter does not parse, does not evaluate, or says no.
+	// Any other path to "no delivery" (a fast path keyed on the message, e.g. "no attributes") drops messages that the
+	// filter — read with the documented semantics, NOT included — would match
+	okReason, nSkip := true, 0
+	for _, ret := range returnsOf(fn) {
+		if !(isNilConst(retResult(ret, 0)) && isNilConst(retResult(ret, 1))) {
+			continue
+		}
+		pathsTo(fn, ret.Block(), func(cs []Cond) {
+			nSkip++
+			reason := false
+			for _, cd := range cs {
+				nc := normCond(cd.V, cd.Pol)
+				// parse / evaluate error
+				if bo, ok := nc.V.(*ssa.BinOp); ok && isNilConst(bo.Y) && (bo.Op == token.NEQ) == nc.Pol {
+					if ex, ok := bo.X.(*ssa.Extract); ok {
+						if call, ok := ex.Tuple.(*ssa.Call); ok {
+							if _, isV := validatingParse(c, call); isV {
+								reason = true
+							}
+							if call.Call.StaticCallee() != nil && call.Call.StaticCallee().Name() == "Evaluate" {
+								reason = true
+							}
+						}
+					}
+				}
+				// no match
+				if ex, ok := nc.V.(*ssa.Extract); ok && ex.Index == 0 && !nc.Pol {
+					if call, ok := ex.Tuple.(*ssa.Call); ok && call.Call.StaticCallee() != nil && call.Call.StaticCallee().Name() == "Evaluate" {
+						reason = true
+					}
+				}
+			}
+			if !reason {
+				okReason = false
+			}
+		})
+	}
+	r.Check("C07.1", "C07.1:skip-only-by-verdict@"+fnDeliver, fn.Pos(), okReason && nSkip > 0, "a subscription is skipped only because its filter fails to parse / evaluate or does not match", "deliverToSubscription skips a filtered subscription on a path that did not ask the filter (a fast path keyed on the message): messages the filter accepts — e.g. an attribute-less message under `NOT attributes:x` — are dropped")
 }
 
 // ---------------------------------------------------------------------------
@@ -729,7 +768,9 @@ func ruleC07_6(c *Ctx, r *Rep) {
 	if fn := r.Anchor("C07.6", "(*filter.HasAttributePredicate).Evaluate"); fn != nil {
 		r.Check("C07.6", "C07.6:HasAttributePredicate:presence-first", fn.Pos(), presenceFirst(fn), "", "hasPrefix can be true although the attribute is absent (a result other than false is returned on a path that did not establish presence)")
 		ok := false
-		for _, ci := range callsIn(fn, false, func(cal *ssa.Function, _ ssa.CallInstruction) bool { return fnPkgPath(cal) == "strings" && cal.Name() == "HasPrefix" }) {
+		for _, ci := range callsIn(fn, false, func(cal *ssa.Function, _ ssa.CallInstruction) bool {
+			return fnPkgPath(cal) == "strings" && cal.Name() == "HasPrefix"
+		}) {
 			a := ci.Common().Args
 			if lookupVal(a[0]) && fieldVal(a[1], "Value") {
 				// and it is the returned value under Predicate == "hasPrefix"
@@ -826,7 +867,9 @@ func ruleC07_6(c *Ctx, r *Rep) {
 		if depth >= 2 {
 			return nil, nil
 		}
-		for _, ci := range callsIn(f, false, func(cal *ssa.Function, _ ssa.CallInstruction) bool { return c.inModule(cal) && len(cal.Blocks) > 0 && c.PkgOf(cal) == "filter" }) {
+		for _, ci := range callsIn(f, false, func(cal *ssa.Function, _ ssa.CallInstruction) bool {
+			return c.inModule(cal) && len(cal.Blocks) > 0 && c.PkgOf(cal) == "filter"
+		}) {
 			g := ci.Common().StaticCallee()
 			ne := map[*ssa.Parameter]ssa.Value{}
 			for k, v := range env {
